@@ -238,7 +238,8 @@ PROPS["C01"] = dict(
     level_text="Theorems (Properties/C01.v) over every schedule of operations, cleaner runs and shutdown steps: the log is append-only and is the "
                "concatenation of the successful Put batches in lock order; every successful Get returns log[commit+delta] (>= base) and advances by one; "
                "per consumer the positions ever returned are exactly [start, high) and the pending window is commit..commit+delta-1. Tie: differential "
-               "history acceptance of the real Buffer against the extracted model.",
+               "history acceptance of the real Buffer against the extracted model."
+               " Added after the statement audit (DESIGN 5b): schedules with an arbitrary cleaner function at every cleaner run (grun), creation base, first-occurrence order, re-read only after Rollback.",
     level_note=_BUF_NOTE,
     stages=[corr_stage("BUFK1", 500, 8000, feature=feat_buf("C01"), seeds=3)],
 )
@@ -249,7 +250,8 @@ PROPS["C02"] = dict(
                "commit..commit+delta-1, commits are permanent under every later schedule; Range and Buffer.Range (range_loop composite): every visited value is "
                "the consecutive log entry from the entry commit point, everything visited is committed except the in-flight value of a panicking callback "
                "which the next Get returns again, nothing is left uncommitted whatever the end, a Get failure leaves the cursor at the first unvisited value, "
-               "a value put by a callback is in the log before that value's Commit, Buffer.Range stops at the end of the buffer with nil and never blocks.",
+               "a value put by a callback is in the log before that value's Commit, Buffer.Range stops at the end of the buffer with nil and never blocks."
+               " Added (DESIGN 5b): Range/Buffer.Range under an arbitrary interleaved environment and with reads pending at entry (C02_range_env_*), composed replay after Rollback; two clauses refuted as worded with the exact caveat.",
     level_note=_BUF_NOTE + " The Range theorems are about the interleaving-free composite; interleavings with the cleaner are explored by the checker only.",
     stages=[corr_stage("BUFK1", 500, 8000, feature=feat_buf("C02"), seeds=3, params={"salt": 2})],
 )
@@ -261,7 +263,8 @@ PROPS["C04"] = dict(
     level_text="Theorems (Properties/C04.v) on the cleaner/timer wake-up protocol at lock-operation granularity with a notify-list condition variable: "
                "every reachable terminal state is clean (any number of changes, cooldown 0 or >0, every schedule), every run terminates, at most two "
                "timer firings after the last change; the pre-fix protocol is refuted (F3, fixed by 989b0cf). Tie: timed scenarios with a delay-bounded "
-               "sweep over all instrumentation points of the real code, decided by the Buffer model's OSettled observation.",
+               "sweep over all instrumentation points of the real code, decided by the Buffer model's OSettled observation."
+               " Added (DESIGN 5b): Buffer-level reclamation (cleaner caught up => base = least committed offset of the registered consumers; fixed cleaner => size <= max), every schedule bounded; full reclamation under the fixed cleaner refuted (known finding F6).",
     level_note="Wall-clock bound is proved as a step bound (timer firings) and measured with generous slack, not proved in real time. Trusted: the "
                "hand-written protocol model (no automatic tie between CleanerProto.v and buffer.go other than the sweep), sync.Cond notify-list semantics, "
                "instrumenter inserts calls only.",
@@ -275,7 +278,8 @@ PROPS["C05"] = dict(
          "parked-then-probed or cancelled Get; distinct by op/result sequence and sweep point",
     level_text="Theorems (Properties/C05.v) on WaitCond at lock-operation granularity: terminal => (predicate or cancelled => returned and unlocked), "
                "nil only after a true predicate under the lock, error only if cancelled, termination; refuted when the watcher does not take the lock or "
-               "the loop does not re-check the context; Buffer model: a failed Get changes nothing. Tie: delay-bounded sweep + history acceptance.",
+               "the loop does not re-check the context; Buffer model: a failed Get changes nothing. Tie: delay-bounded sweep + history acceptance."
+               " Added (DESIGN 5b): every schedule bounded by mu(s); no-recheck variant refuted.",
     level_note="'promptly' is a step-bound/terminal-state statement; real-time latency is only measured (400 ms deadline). The WaitCond model is hand-written; "
                "its tie to sync.go is the sweep over the real code's synchronisation points.",
     stages=[corr_stage("C05S", 3, 12, feature=feat_buf("C05"), instrument=True, shards=4, tparams={"points": 1000}),
@@ -289,7 +293,8 @@ PROPS["C12"] = dict(
     level_text="Theorems (Properties/C12.v): Buffer.Close/consumer.Close terminate under the proviso, close Done, deregister every consumer, keep the "
                "contents, second Close errs; after close Put/NewConsumer/Get/Commit err and change nothing, permanently; Channel likewise; the WaitCond "
                "watcher has exited in every terminal state where the waiter returned; cleaner/timer goroutines reach a terminal state. Tie: goroutine-dump "
-               "leak monitor + history acceptance. Goroutine-exit clauses of the other types are decided by their own properties' models (C14, C16, C17, C20).",
+               "leak monitor + history acceptance. Goroutine-exit clauses of the other types are decided by their own properties' models (C14, C16, C17, C20)."
+               " Added (DESIGN 5b): Channel.Close theorems, cancellation/watcher split machine, closed consumers of an open Buffer, pending Commit/Rollback on a closed Buffer (37 obligations).",
     level_note="PARTIAL: 'no goroutine left' is proved per protocol model (WaitCond watcher, cleaner timers) and otherwise observed on the real runtime; "
                "a single whole-library thread model is not built.",
     stages=[corr_stage("C12LEAK", 240, 3000, seeds=2),
@@ -301,7 +306,8 @@ PROPS["C12"] = dict(
 PROPS["C13"] = dict(
     level_text="Theorems (Properties/C13.v): for every operation sequence the implementation-level Channel model (buffer + rollback counter as coded) "
                "refines a cursor specification; committed++Buffer() = taken prefix; Get returns the stream element under the cursor; rollback/commit "
-               "laws; nothing taken after close. Tie: K1 sequential differential runs and K2 linearizability of concurrent histories against the extracted model.",
+               "laws; nothing taken after close. Tie: K1 sequential differential runs and K2 linearizability of concurrent histories against the extracted model."
+               " Added (DESIGN 5b): stutter lemmas, generic thread wrapper with a linearizability theorem instantiated for Channel, clause-by-clause theorems on the coded model (27 theorems).",
     level_note="Trusted: Coq kernel, extraction (ExtrOcamlBasic), OCaml checker glue, Go harness; Channel.mutex makes each method body atomic (C11); "
                "polling Get is observed through timeouts (an empty attempt = 6ms deadline).",
     rule="K1: seeded op sequences (SrcSend/Get/Commit/Rollback/Buffer/Close/Cancel/SrcClose) run on a real Channel, outputs must equal "
@@ -319,7 +325,8 @@ PROPS["C03"] = dict(
                "errs on every later Get; Slice/Size/Diff characterisation. Tie: DefaultCleaner and FixedBufferCleaner are TRANSLATED from the current "
                "source on every run (harness/cmd/gotr -> coq/Gen/ImplCleaners.v, a deep embedding of the Go fragment with an interpreter) and proved equal "
                "to the model functions for every input (C03_*_source_is_model); plus exhaustive small-domain + seeded differential run of the Go "
-               "functions, and Buffer histories under FixedBufferCleaner.",
+               "functions, and Buffer histories under FixedBufferCleaner."
+               " Added (DESIGN 5b): the cleaner functions are translated from the current source and proved equal to the model; consumers at or beyond a trim are unaffected; run theorems for arbitrary cleaners.",
     level_note=_BUF_NOTE,
     rule="pure cleaners: EXHAUSTIVE over size 0..6 x offset lists of length <= L over -2..8 (L=3 quick, 4 thorough), fixed cleaner over "
          "max,target in -1..8 x size 0..8 x 6 offset lists, plus seeded large values; Go result must equal the model. non-trivial = "
@@ -455,7 +462,8 @@ PROPS["C11"] = dict(
     level_text="Theorem C11_disciplined_no_race (any number of threads, any programs, every schedule): if every access is made while holding its location's "
                "guard lock in an adequate mode, no state has two threads at conflicting accesses. Obligations C11_impl_disciplined / _lazyinit_confined / "
                "_gostmts_ok / _sync_callers / _covers_table are recomputed from /repo's source on every run, so removing a lock breaks a proof obligation. "
-               "Race detector workloads provide the concrete failing schedule.",
+               "Race detector workloads provide the concrete failing schedule."
+               " Added (DESIGN 5b): bridge guard_sat => action_ok and library-programs-race-free theorem, explicit tight trusted-remainder table, captured locals as locations, sync-caller assumption computed in Coq, token-passing happens-before extension (41 obligations).",
     level_note="PARTIAL: the translator's held-lock computation (syntactic, access-path aliasing, entry locksets by intersection over call sites, 'fresh' "
                "objects) and the exemption list (Buffer.ensure double-checked reads = the property's proviso; Worker.do reads ordered by the go statement; "
                "Exclusive lock hand-off; unpublished item) are trusted. Atomics/channels synchronise as the Go memory model says.",
@@ -486,7 +494,8 @@ PROPS["C18"] = dict(
                "fully unwrapped at any depth with that call's result; no call after cancellation, ctx error with nil result), delay before the k-th retry = "
                "j*rate with 0 <= j <= 2^min(k,31)-1 (uint32/int64 wraps explicit, vacuous under the cap 31), default rate, wait cut by cancellation; five "
                "refuted variants. Tie: K1 through the repository's own seams (waitDuration, calcExponentialRetry), the real calcExponentialRetry sampled for "
-               "c in 0..40 with an exact twin generator, real waitDuration under monitors, constants compared at run time.",
+               "c in 0..40 with an exact twin generator, real waitDuration under monitors, constants compared at run time."
+               " Added (DESIGN 5b): interleaved non-fatal wrappers ('at any depth' holds for consecutive nesting, refuted beyond), timed wait theorem.",
     level_note="Trusted: Coq kernel, extraction, OCaml glue, Go harness; math/rand.Int63n's range contract is the oracle hypothesis; timers and context are the "
                "Go runtime's; timing monitors use bounds of at least 1 s.",
     rule="C18K1: seeded scripts of 0-40 plain failures then success / fatal depth 1-4 / nothing, rates <= 0 .. 2^32 ns, nil and custom contexts, cancellation "
@@ -539,7 +548,8 @@ PROPS["C08"] = dict(
                "senders/receivers, every schedule at lock/atomic/channel-operation granularity): no false panic, no stolen copy, ret = delivered, "
                "ret + absorbed = registered at arming, word 0 after Send, exactly-once per counted receiver, late registration blocked until unlock, "
                "racing deregistration removes-before-count or absorbs exactly one, deadlock freedom + termination measure; two mutation refutations. "
-               "'every later call panics too' is refuted (C08_sticky_refuted, finding F4, known) and replaced by C08_sticky_until_compensated_partial.",
+               "'every later call panics too' is refuted (C08_sticky_refuted, finding F4, known) and replaced by C08_sticky_until_compensated_partial."
+               " Added (DESIGN 5b): word<->protocol bridge along every schedule, Add(+-n) = n unit Adds, late registration over runs and served by a later Send, channel capacity parameter: buffered capacity refuted (known findings F7/F7b), safe regimes proved (69 obligations).",
     level_note="PARTIAL on the parenthetical 'every later call panics too' (false of the code: known finding F4). Trusted: hand-written models; "
                "CasterAbs.v abstracts the word to (count, armed) assuming counts far below MaxInt32 (overflow is covered at word level only); "
                "sync.RWMutex writer preference as modelled; protocol theorems are for unbuffered channels; harness logical clock and 2 s hang deadline.",
@@ -578,7 +588,8 @@ PROPS["C14"] = dict(
                "when every caller passes <= N (C14_bound, C14_bound_uniform); a non-empty queue always has a live worker and every terminal state has an empty "
                "queue, no worker, every Call returned (C14_no_strand), with a strictly decreasing measure and extension of every run to a terminal one; Wait "
                "returns only at count = 0 and Count stays 0 until the next Call; four one-token mutations refuted on the same step function. Tie: gated quiescent "
-               "scenarios decided by search over the extracted step function, free-running bursts decided by monitors and the model's terminal state.",
+               "scenarios decided by search over the extracted step function, free-running bursts decided by monitors and the model's terminal state."
+               " Added (DESIGN 5b): delivery to the own caller, FIFO, Wait's return state; assumptions A1 (functions terminate) / A2 (no call back into the same pool) explicit, A2 with a refutation reproduced on the Go code (30 obligations).",
     level_note="Trusted: Coq kernel, extraction, OCaml adapter (interleaving exploration is untrusted glue that only applies the extracted step), Go harness and "
                "goroutine-dump quiescence detection; each modelled step is atomic under Workers.mutex (C11); Wait's cond loop modelled as a step enabled at count = 0; "
                "user functions terminate and do not panic; results modelled as call ids.",
@@ -617,7 +628,8 @@ PROPS["C17"] = dict(
                "generations): single instance; held => instance exists, stop open, function not returned; stop closed only by the watcher holding mu after every done; "
                "Do blocked during the stop phase then starts a fresh instance; terminal states have everything stopped + decreasing measure; no panic; three refuted "
                "variants. Tie: K1 gated quiescent runs vs extracted kstep oracle, K2 free-running histories linearized vs extracted step, MONITOR lines for overlap / "
-               "stop-open-while-held / leak.",
+               "stop-open-while-held / leak."
+               " Added (DESIGN 5b): progress, drain theorem from every reachable state with a tight bound, parked Do callers as state (no waiter stranded), literal 'held => running' refuted for early-returning functions (28 obligations).",
     level_note="Trusted: Coq kernel, extraction, OCaml glue, Go harness (goroutine-dump quiescence; in-package TryLock peeks at Worker.stop). Assumes the instance "
                "function returns only after seeing stop closed and each done is called at most once.",
     rule="K1: seeded scripts of Do (own goroutine)/done(h)/release-instance/Do(nil), quiescence after each action; vector (Do returned, instances started, saw stop, "
@@ -653,7 +665,8 @@ PROPS["C20"] = dict(
                "return (or closed and empty when pre-cancelled); at most count values; buffer <= 1; non-decreasing timestamps; every library-quiet state is closed "
                "with the producer gone, after count values or a cancellation; at most one send and two receives after the cancel step; producer progress/exit; five "
                "refuted variants (count on dropped tick, no re-check, blocking send, no close on count=1, capacity 2). Tie: K1 deterministic cases decided by the "
-               "extracted kstep, timed runs decided by obs_ok plus timing-independent MONITOR lines, capacity compared at run time.",
+               "extracted kstep, timed runs decided by obs_ok plus timing-independent MONITOR lines, capacity compared at run time."
+               " Added (DESIGN 5b): after-cancel bounds over the observable sent/received lists.",
     level_note="Trusted: runtime semantics of time.Ticker (channel of capacity 1, drops ticks; timestamps non-decreasing for periods >= 200 us) and of buffered channels; "
                "liveness is terminal-state + rank, assuming an armed ticker keeps firing; deadlines >= 20 x rate + 200 ms.",
     rule="C20K1: deterministic cases (pre-cancelled, count 1, rate 1 h with receives/cancels in every order, rate 1-3 ms observed only when the producer is parked) "
@@ -689,7 +702,8 @@ PROPS["C16"] = dict(
                "primary or a non-nil other is, already at return if an input already is, carries the primary's values, leaves no registration pending; "
                "ConflatedContext stays live while a construction-time-live input is live and cancel() was not called, is cancelled once all are, its WaitGroup never "
                "goes negative, its waiter exits, values only from the first input; progress measures; four refuted variants. Tie: K1 quiescent differential runs over "
-               "every pre-cancelled subset x cancel order (exhaustive shapes) + seeded forests, barrier-released simultaneous cancels with monitors.",
+               "every pre-cancelled subset x cancel order (exhaustive shapes) + seeded forests, barrier-released simultaneous cancels with monitors."
+               " Added (DESIGN 5b): split-cancellation model (per-node marking, per-child propagation, per-registration firing) with every theorem re-proved; quiescence is reached for all three combinators (80 obligations).",
     level_note="Trusted: the std context model (atomic cascade, values fixed at creation), scheduler fairness for liveness ('promptly' = at every quiescent state + "
                "decreasing measure), Coq kernel, extraction, OCaml glue, Go harness (quiescence = no other goroutine runnable in one goroutine dump).",
     rule="C16K1 EXHAUSTIVE over every pre-cancelled subset x every later cancel order for: ChainAfterFunc with independent / same / parent-child (both ways) / sibling "
@@ -718,8 +732,9 @@ def feat_pubsub(tok):
 _PS_NOTE = ("Trusted: hand-written counter-abstraction models (Model/PubSubAbs.v: number of threads at each program point, one step per lock/atomic/channel "
             "operation; Model/PubSubTag.v adds one individually tracked subscription); their tie to chanpubsub.go is the Go monitors on free-running programs and "
             "the delay-bounded sweep over the real code's synchronisation points — an abstract model with anonymous subscribers cannot decide a concrete history. "
-            "Not modelled (exercised by the harness only): SubscribeContext's AfterFunc/stop pairing, checkBroken, |delta| > 1, Add(0), channel close. The symmetry "
-            "step from 'an arbitrary tracked subscription' to 'all n distinct subscriptions' is a meta-argument. sync.RWMutex writer preference and TryRLock as modelled.")
+            "SubscribeContext's AfterFunc/stop/iterator pairing has its own swept model (Model/PubSubIter.v); every subscriber is tracked by index in Model/PubSubIdx.v "
+            "(the 'n distinct subscriptions' step is a theorem); the fused atomic steps are split in Model/PubSubSplit.v. Not modelled (exercised by the harness only): "
+            "checkBroken, |delta| > 1, Add(0), channel close. sync.RWMutex writer preference and TryRLock as modelled.")
 
 PROPS["C06"] = dict(
     rule="C06K2: free-running programs, 1-3 senders x 1-4 tagged values, 2-6 subscribers in seven styles (manual with quota, manual on a timer, iterator cancelled, "
@@ -732,7 +747,8 @@ PROPS["C06"] = dict(
                "not counted by the Send (receive by an uncounted subscriber is never enabled), Send's return value = receivers blocked in Wait and it returns only after "
                "all acknowledged, Sends are serialised, zero-subscriber Sends return without delivering; on the tagged extension (whose base is proved to be an abstract "
                "run): the tracked subscription's receipts are a contiguous run of the round order, no duplicate, no stale round, standing subscriptions are included; "
-               "refuted without the write lock. Tie: Go monitors + delay-bounded sweep.",
+               "refuted without the write lock. Tie: Go monitors + delay-bounded sweep."
+               " Added (DESIGN 5b): every subscriber tracked by index (received by exactly `sent` distinct subscribers), standing => included from an invariant, split atomic steps re-proved (38 theorems).",
     level_note=_PS_NOTE,
     stages=[corr_stage("C06K2", 1000, 6000, feature=feat_pubsub, seeds=3),
             corr_stage("C06S", 3, 10, feature=feat_pubsub, instrument=True, shards=6, tparams={"hits": 6}, timeout=1200)],
@@ -744,7 +760,8 @@ PROPS["C07"] = dict(
     level_text="Theorems (Properties/C07.v, 12): no reachable state takes an invariant-panic transition (bad = 0), every quiescent/terminal reachable state has all calls "
                "returned (deadlock freedom) with a strictly decreasing measure (every run finite, explicit bound), final subscriber count = subscriptions - "
                "unsubscriptions with the caster idle, sanityCheckSubscribersDelta fires iff the int32 arithmetic wrapped or a value is negative (explicit mod 2^32); "
-               "refuted when an unsubscribe during delivery is not routed through the caster. Tie: Go monitors + delay-bounded sweep + sanity differential.",
+               "refuted when an unsubscribe during delivery is not routed through the caster. Tie: Go monitors + delay-bounded sweep + sanity differential."
+               " Added (DESIGN 5b): SubscribeContext AfterFunc/stop/iterator pairing model (at most one Unsubscribe, exactly one in terminal states after cancel-or-run; ignoring stop() refuted), split-step model (30 theorems).",
     level_note=_PS_NOTE,
     stages=[corr_stage("C06K2", 1000, 6000, feature=feat_pubsub, seeds=3, params={"salt": 7}),
             corr_stage("C06S", 3, 10, feature=feat_pubsub, instrument=True, shards=6, params={"salt": 7}, tparams={"hits": 6}, timeout=1200),
@@ -784,7 +801,8 @@ PROPS["C15"] = dict(
                "context fired; registry: duplicate Subscribe / unmatched Unsubscribe panic (registry untouched), Unsubscribe barrier, other keys untouched, "
                "empty-key cleanup invisible. Refuted on the same transition function: ref not removed, decrement-before-test; '<' for '<=' in the break "
                "test is proved an EQUIVALENT mutant. Tie: K1 single-ready-case runs of the real PublishContext decided by the extracted run_publish and "
-               "spec_publish, registry sequences decided by subscribe/unsubscribe/lookup, SubscribeCancel leak/barrier monitors, concurrent stress monitors.",
+               "spec_publish, registry sequences decided by subscribe/unsubscribe/lookup, SubscribeCancel leak/barrier monitors, concurrent stress monitors."
+               " Added (DESIGN 5b): per-subscriber liveness, prefix form of returns-only-when-served, context-carrying registry, Subscribe/Unsubscribe/Publish interleaving machine under the RWMutex discipline (40 obligations).",
     level_note="Trusted: Coq kernel, extraction, OCaml adapter, Go harness (quiescence detection makes exactly one select case ready at a time; reflect.Select's "
                "choice among SEVERAL ready cases is not modelled - the theorems hold for every choice); the compat column of each record is a hand-written "
                "table (value kind x element type), not reflect.AssignableTo. The RWMutex (publish under RLock, registry fixed during a publish) is assumed (C11).",
@@ -836,7 +854,8 @@ PROPS["C09"] = dict(
     level_text="Theorems (Properties/C09.v) on the counter abstraction of exclusive.go, any number of calls of both styles, every schedule: overlap = 0 "
                "(ExecStart only when the previous work function has returned: the step form excludes RWork, RWorkRes and RDone), the A.6 invariant, "
                "refutation when resolve clears the successor's running flag; two-key product: each key behaves as the one-key model on its own picks and "
-               "no pick of a key is disabled or altered by whatever the other key does. Tie: monitors on implementation histories.",
+               "no pick of a key is disabled or altered by whatever the other key does. Tie: monitors on implementation histories."
+               " Added (DESIGN 5b): n-key product; map-lock sections checked on the lock/access facts translated from the current exclusive.go.",
     level_note=_EXCL_NOTE,
     stages=_EXCL_STAGES(),
 )
@@ -851,8 +870,9 @@ PROPS["C10"] = dict(
     level_text="Theorems (Properties/C10.v): the tagged call is answered once, by the execution its item was bound to, whose ExecStart follows the "
                "call's first step; answered <= issued always and = issued in terminal states, nothing in flight, key not in the map (forced resolve "
                "included); every run terminates and a terminal state is reachable from every state; every call of either style is followed by an "
-               "ExecStart on every completed continuation; executions <= calls; refuted without the forced resolve and with an unconditional escape hatch.",
-    level_note=_EXCL_NOTE + " PARTIAL: result/function identity of coalesced callers is not expressible in the counter abstraction "
-               "(C10_coalesced_identical_partial); it is decided by the harness monitors only.",
+               "ExecStart on every completed continuation; executions <= calls; refuted without the forced resolve and with an unconditional escape hatch."
+               " Added (DESIGN 5b): result values and supplier identity in the model (ExclusiveVal): coalesced callers receive the identical outcome of an execution begun after their call; the executed function is the last attacher's; unresolved work => error to every caller; k tracked calls.",
+    level_note=_EXCL_NOTE + " Result and function identity of coalesced callers are proved on Model/ExclusiveVal.v (same protocol steps, k tracked calls, "
+               "result values, attach numbers); that model is tied to the code through the base model it reuses step for step.",
     stages=_EXCL_STAGES(),
 )
